@@ -271,6 +271,20 @@ func runOracles(job JobCfg, res *Result) {
 		return
 	}
 	c, diag := typeCheck(job, def.Out, "")
+	if c != nil && c.file != nil {
+		// C10: the source package is imported by its own path or not at all - never by a mangled
+		// (truncated) form of it
+		if si := loadFull(job.Dir); si.err == nil {
+			for _, im := range c.file.Imports {
+				p := strings.Trim(im.Path.Value, `"`)
+				if p != si.pkgPath && strings.HasSuffix(si.pkgPath, "/"+p) {
+					if _, err := si.imp.Import(p); err != nil {
+						res.Checks["C10"] = fmt.Sprintf("the output imports %q, a truncated form of the source package's own path %q", p, si.pkgPath)
+					}
+				}
+			}
+		}
+	}
 	if diag != "" {
 		res.Checks["C01"] = diag
 		if c != nil {
